@@ -52,8 +52,10 @@ ASSUMPTIONS = [
     "chain, transitive only bounded (interval arithmetic propagates the bounds through later operators)",
     "termination guard: recursion limit = current depth + 150 frames, at most 200 / 600 / 2000 / 10000 calls (models "
     "of 1 / 2 / 3 / 4 assets) of Model.get_associated_assets_by_field_name per evaluation or generation (counted by "
-    "a delegating wrapper on the model instance), 30 s wall alarm; exceeding any of them is reported under "
-    "C01.terminates",
+    "a delegating wrapper on the model instance; 25 times as many in a second attempt when no closure of the "
+    "expression works on a field with cyclic links), 30 s wall alarm; exceeding any of them is reported under "
+    "C01.terminates. Generated expressions hold at most 2 subtype filters (variables expanded) because the "
+    "evaluator's intermediate lists grow quadratically with each",
     "the generated asset / association classes (LanguageClassesFactory) are cached per worker process, keyed by the "
     "asset types, associations and defenses of the language; LanguageGraph, Model and AttackGraph are built afresh "
     "for every case",
@@ -120,6 +122,7 @@ def family(sname, tier, seed):
         T = rnd.choice(L.order)
         e, _ty = G.rand_expr(L, T, rnd.choice(range(3, dmax + 1)), rnd)
         if e is None or G.height(e) < 3: continue
+        if G.count_subtypes(L, e) > 2: continue     # the evaluator's lists grow quadratically per subtype filter
         k = json.dumps((T, e))
         if k in seen: continue
         seen.add(k); deep.append((T, e)); count -= 1
@@ -176,9 +179,20 @@ def _is_tiny(L, links):
 
 
 def cases(tier, seed):
-    rnd = random.Random(seed)
+    """the four structures' case streams, interleaved in blocks (a run cut short by the budget still covers all)"""
+    gens = [_cases_of(sname, tier, seed) for sname in ("S3", "S1", "S2", "S4")]
+    while gens:
+        for g in list(gens):
+            block = list(itertools.islice(g, CHUNK))
+            if not block:
+                gens.remove(g)
+            yield from block
+
+
+def _cases_of(sname, tier, seed):
+    rnd = random.Random("%s/%s/cases" % (seed, sname))
     quick = tier == "quick"
-    for sname in ("S3", "S1", "S2", "S4"):
+    if True:
         L, small, deep = family(sname, tier, seed)
         eval_lang = G.with_steps(G.STRUCTS[sname], base_steps(L))
         m12 = [m for n in (1, 2) for m in G.models_exhaustive(L, n)]
@@ -257,7 +271,7 @@ def _clause_of_blame(b):
 def run_case(recipe):
     L = G.Lang(recipe["lang"])
     mv = G.ModelView(L, recipe["model"])
-    real = G.Real(L, recipe["model"], nav_budget=NAV_BUDGET[min(4, max(1, len(recipe["model"]["assets"])))])
+    real = G.Real(L, recipe["model"], nav_budget=NAV_BUDGET[min(4, max(1, len(recipe["model"]["assets"])))], mv=mv)
     r = CaseResult()
     seen = set()
     if real.build_error is not None:
@@ -326,6 +340,9 @@ def _run_graph(recipe, L, mv, real, r, seen):
         return None
 
     st, g = real.generate()
+    if st == "budget" and not any(G.closure_over_cycle_possible(mv, e) for (x, s) in expected
+                                  for e in steps_of[mv.types[x]][s]["exprs"] or []):
+        st, g = real.generate(budget=real.nav_budget * G.BIG)
     if st != "ok":
         b = None
         if st != "exc":
